@@ -119,6 +119,7 @@ type Sched struct {
 	// with the lowest id) and EVERY deviation from it costs 1 — also switches at blocking points and the choice
 	// between several ready select cases.  Without it only preemptions cost (CHESS-style context bounding).
 	DelayBounded bool
+	NewestFirst  bool // default scheduler prefers the newest enabled thread instead of the oldest
 	trace     []string
 	epoch     time.Time
 	stateHook func() string
@@ -135,12 +136,13 @@ type Options struct {
 	Horizon      int
 	AllPoints    bool
 	DelayBounded bool
+	NewestFirst  bool
 }
 
 // Run executes main as thread 0 under the chooser until every thread finished, a deadlock is
 // detected, a thread panics or the horizon is hit.  Remaining threads are unwound.
 func Run(choose Chooser, opt Options, main func()) Outcome {
-	s := &Sched{choose: choose, horizon: opt.Horizon, AllPoints: opt.AllPoints, DelayBounded: opt.DelayBounded, doneCh: make(chan struct{}), epoch: Epoch}
+	s := &Sched{choose: choose, horizon: opt.Horizon, AllPoints: opt.AllPoints, DelayBounded: opt.DelayBounded, NewestFirst: opt.NewestFirst, doneCh: make(chan struct{}), epoch: Epoch}
 	if s.horizon <= 0 {
 		s.horizon = 20000
 	}
@@ -331,6 +333,13 @@ func (s *Sched) pick(self *thread) *thread {
 				} else {
 					en = append(en, t)
 				}
+			}
+		}
+		if s.NewestFirst {
+			// default order among the other threads: most recently created first (Go's runtime also prefers the
+			// goroutine that was readied last), so the default schedule follows the causal chain of a pipeline
+			for i, j := 0, len(en)-1; i < j; i, j = i+1, j-1 {
+				en[i], en[j] = en[j], en[i]
 			}
 		}
 		if selfEnabled {
